@@ -25,7 +25,7 @@ class Harness:
         self.props = [p for p in kv.get('props', '').split(',') if p]
         self.fn = kv.get('fn', '')
         self.expect = kv.get('expect', 'pass')          # pass | finding:<ID>
-        self.timeout = int(kv.get('timeout', '600'))
+        self.timeout = int(kv.get('timeout', '900'))
         self.attempt = kv.get('attempt', '') == '1'
         # expect=finding:<ID> standalone=1: the finding covers every input of this obligation, so no main harness
         # repeats it; when <ID> is not listed open the harness runs as an ordinary obligation instead of being skipped
